@@ -98,12 +98,32 @@ class Gen(object):
 
   def filler(self, ind):
     r = self.rng.random()
-    if r < 0.5:
+    if r < 0.4:
       self.emit(ind, 'x = x + @L')
-    elif r < 0.8:
+    elif r < 0.6:
       self.emit(ind, 'w = @L + 1')
-    else:
+    elif r < 0.7:
       self.emit(ind, '@L')
+    elif r < 0.8:
+      # expressions and statements that open a scope of their own, textually before the failing statement
+      self.emit(ind, self.rng.choice(['w = (lambda q: q + 1)(@L)', 'lam%d = lambda q=2: q' % self.ln(),
+                                      'w = len([q for q in range(2 + @L)])', 'w = sum(q for q in (1, 2))',
+                                      'w = {q: (lambda: q) for q in (1,)}[1]() + @L']))
+      self.constructs.append('scope_expr')
+    elif r < 0.9:
+      n = self.ln()
+      self.emit(ind, 'def h%d(q):' % n)
+      self.emit(ind + 1, 'return q + 1')
+      self.emit(ind, 'w = h%d(@L)' % n)
+      self.constructs.append('nested_def')
+    else:
+      n = self.ln()
+      self.emit(ind, 'class K%d(object):' % n)
+      self.emit(ind + 1, 'attr = 1')
+      self.emit(ind + 1, 'def meth(self):')
+      self.emit(ind + 2, 'return self.attr')
+      self.emit(ind, 'w = K%d().meth() + @L' % n)
+      self.constructs.append('nested_class')
 
   def nest(self, ind, depth, payload):
     """Emits `payload(ind)` nested in `depth` constructs with fillers around it."""
